@@ -1,6 +1,10 @@
 package coroutines
 
 import (
+	"github.com/resonatehq/gocoro"
+	"github.com/resonatehq/resonate/internal/kernel/t_aio"
+	"github.com/resonatehq/resonate/internal/kernel/t_api"
+	"github.com/resonatehq/resonate/internal/util"
 	"github.com/resonatehq/resonate/internal/app/subsystems/aio/store/postgres"
 	"github.com/resonatehq/resonate/internal/app/subsystems/aio/store/sqlite"
 	"github.com/resonatehq/resonate/internal/kernel/system"
@@ -23,3 +27,52 @@ func vhSetup(flags int) vx.Coro {
 }
 
 func vhB2I(b bool) int64 { return vx.IteInt64(b, 1, 0) }
+
+// VXSetup / VXDispatch: used by front-end harnesses (grpc) to run the real request coroutine
+// of a kernel request under havoc semantics, as System.AddOnRequest would.
+func VXSetup(flags int) vx.Coro { return vhSetup(flags) }
+
+func VXDispatch(c gocoro.Coroutine[*t_aio.Submission, *t_aio.Completion, any], r *t_api.Request) (*t_api.Response, error) {
+	// System.AddOnRequest's wrapper
+	util.Assert(r.Tags != nil, "request tags must be non nil")
+	util.Assert(r.Tags["id"] != "", "id tag must be set")
+	switch r.Kind {
+	case t_api.ReadPromise:
+		return ReadPromise(c, r)
+	case t_api.SearchPromises:
+		return SearchPromises(c, r)
+	case t_api.CreatePromise:
+		return CreatePromise(c, r)
+	case t_api.CreatePromiseAndTask:
+		return CreatePromiseAndTask(c, r)
+	case t_api.CompletePromise:
+		return CompletePromise(c, r)
+	case t_api.CreateCallback:
+		return CreateCallback(c, r)
+	case t_api.CreateSubscription:
+		return CreateSubscription(c, r)
+	case t_api.ReadSchedule:
+		return ReadSchedule(c, r)
+	case t_api.SearchSchedules:
+		return SearchSchedules(c, r)
+	case t_api.CreateSchedule:
+		return CreateSchedule(c, r)
+	case t_api.DeleteSchedule:
+		return DeleteSchedule(c, r)
+	case t_api.AcquireLock:
+		return AcquireLock(c, r)
+	case t_api.ReleaseLock:
+		return ReleaseLock(c, r)
+	case t_api.HeartbeatLocks:
+		return HeartbeatLocks(c, r)
+	case t_api.ClaimTask:
+		return ClaimTask(c, r)
+	case t_api.CompleteTask:
+		return CompleteTask(c, r)
+	case t_api.HeartbeatTasks:
+		return HeartbeatTasks(c, r)
+	case t_api.Echo:
+		return Echo(c, r)
+	}
+	panic("no registered coroutine for request kind")
+}
